@@ -611,5 +611,8 @@ mod operator;
 mod token;
 mod tree;
 mod value;
+#[cfg(feature = "verif-hooks")]
+#[doc(hidden)]
+pub mod verif;
 
 // Exports
